@@ -381,16 +381,16 @@ impl LogInnerManager {
         }
         let (index_dto, file_index_len, pop_index_count) =
             self.get_file_index_by_log_index(end_index)?;
-        let empty_data = vec![0u8, 1];
+        let old_index_cursor = self.index_cursor;
+        let old_data_cursor = self.data_cursor;
         if pop_index_count > 0 {
             for _i in 0..pop_index_count {
                 self.indexs.pop();
             }
             self.index_cursor -= file_index_len;
-            self.index_file
-                .seek(SeekFrom::Start(self.index_cursor))
-                .await?;
-            self.index_file.write_all(&empty_data).await?;
+            // clear the popped entries (not only the first two bytes): a later, shorter entry written here
+            // must not be followed by what is left of the old ones
+            Self::clear_range(&mut self.index_file, self.index_cursor, old_index_cursor).await?;
             self.index_file
                 .seek(SeekFrom::Start(self.index_cursor))
                 .await?;
@@ -407,14 +407,27 @@ impl LogInnerManager {
         self.data_cursor = data_cursor;
         self.msg_count = msg_count;
         self.current_index_count = current_index_count as u16;
-        self.data_file
-            .seek(SeekFrom::Start(self.data_cursor))
-            .await?;
-        self.data_file.write_all(&empty_data).await?;
+        // clear the whole removed suffix: write() puts no end marker behind a record, so entries that are
+        // appended after the cut would otherwise be followed by stale records that a reopen reads again
+        Self::clear_range(&mut self.data_file, self.data_cursor, old_data_cursor).await?;
         self.data_file
             .seek(SeekFrom::Start(self.data_cursor))
             .await?;
         self.data_file.flush().await?;
+        Ok(())
+    }
+
+    /// overwrite `[start, end)` (at least the two bytes of an end marker) with zeros
+    async fn clear_range(file: &mut tokio::fs::File, start: u64, end: u64) -> anyhow::Result<()> {
+        let end = std::cmp::max(end, start + 2);
+        let zeros = vec![0u8; 64 * 1024];
+        file.seek(SeekFrom::Start(start)).await?;
+        let mut pos = start;
+        while pos < end {
+            let n = std::cmp::min(zeros.len() as u64, end - pos) as usize;
+            file.write_all(&zeros[..n]).await?;
+            pos += n as u64;
+        }
         Ok(())
     }
 
